@@ -6,13 +6,19 @@ LogLast(h, r) == <<r>>
 C(pev, pnb, pcnt, psb, psc, pne) == [ev |-> pev, nb |-> pnb, cnt |-> pcnt, sb |-> psb, sc |-> psc, ne |-> pne, glo |-> 2, ghi |-> 2]
 \* C25: small sender limits (count 2..3, bytes 3..5 with sizes 1/3), eviction off / on with thresholds 4 (the minimum
 \* the configuration check accepts), eviction batch 1 / 2; plus configurations the check rejects
-CfgC25Quick == {C(FALSE, 0, 0, 4, 2, 0), C(TRUE, 4, 4, 5, 3, 1), C(TRUE, 6, 4, 3, 2, 2)}
-CfgC25Thorough == CfgC25Quick \cup {C(FALSE, 0, 0, 3, 3, 0), C(TRUE, 4, 5, 4, 2, 1), C(TRUE, 9, 4, 7, 3, 2),
+CfgC25Quick == {C(FALSE, 0, 0, 4, 2, 0), C(TRUE, 4, 4, 5, 3, 1)}
+CfgC25Thorough == CfgC25Quick \cup {C(TRUE, 6, 4, 3, 2, 2), C(FALSE, 0, 0, 3, 3, 0), C(TRUE, 4, 5, 4, 2, 1), C(TRUE, 9, 4, 7, 3, 2),
                                     C(TRUE, 3, 4, 4, 2, 1), C(TRUE, 4, 3, 4, 2, 1), C(TRUE, 4, 4, 4, 2, 0),
                                     C(FALSE, 0, 0, 0, 2, 0), C(FALSE, 0, 0, 4, 0, 0)}
 \* C26: selection; limits out of the way
 CfgC26 == {C(FALSE, 0, 0, 100, 10, 0)}
 CfgC26Evict == {C(FALSE, 0, 0, 100, 10, 0), C(TRUE, 100, 4, 100, 10, 1)}
+\* scenario families for simulation (tiny universes, so that the pattern is frequent in a 30-step random walk):
+\* churn: one or two transactions per sender, eviction thresholds at the accepted minimum -- several evictions with
+\*        "all transactions of a sender removed, sender re-added" in between
+CfgChurn == {C(TRUE, 4, 4, 100, 10, 1), C(TRUE, 6, 4, 100, 10, 1), C(TRUE, 7, 4, 100, 10, 2)}
+\* rollback: one limit-free configuration; account-nonce notifications go up AND down, selections in between
+CfgRollback == {C(FALSE, 0, 0, 100, 10, 0)}
 GenNext  == Len(hist) < Depth /\ Next
 GenSpec  == Init /\ [][GenNext]_vars
 EmitEdge == PrintT("@@B " \o ToJson(hist'))
